@@ -11,7 +11,7 @@ def _nonfatal(e):
 
 class Ctx:
     """what a property module needs to run extra cases during shrinking/search"""
-    def __init__(self, impl_exes, model_exe, mod=None):
+    def __init__(self, impl_exes, model_exe, mod=None, tier="quick"):
         self.impl_exes, self.model_exe = impl_exes, model_exe
         # optional MODEL_SKIP(case) -> bool of the property module: such cases are
         # implementation-only (e.g. runs far beyond the model's instruction budget);
@@ -21,12 +21,15 @@ class Ctx:
         self.kw = {"per_shard": mod.CASES_PER_SHARD} if hasattr(mod, "CASES_PER_SHARD") else {}
         # optional SHARD_TIMEOUT (seconds): a shard running longer is replayed case by case and the
         # hanging cases become TIMEOUT lines (default: common.py's one hour)
+        # (implementation only: the model cannot hang, it has fuel); an int or a dict per tier
+        self.ikw = dict(self.kw)
         if hasattr(mod, "SHARD_TIMEOUT"):
-            self.kw["timeout"] = mod.SHARD_TIMEOUT
+            t = mod.SHARD_TIMEOUT
+            self.ikw["timeout"] = t.get(tier, 3600) if isinstance(t, dict) else t
 
     def impl(self, cases, profile=None):
         exe = self.impl_exes[profile or sorted(self.impl_exes)[0]]
-        return C.run_impl(exe, cases, **self.kw)
+        return C.run_impl(exe, cases, **self.ikw)
 
     def model(self, cases):
         if self.skip is None:
@@ -75,7 +78,7 @@ def run_property(mod, tier="quick", seed=0, replay=None):
         model_exe = C.build_model()
     except C.BuildError as e:
         return _nonfatal("model does not build: %s" % e)
-    ctx = Ctx(impl_exes, model_exe, mod)
+    ctx = Ctx(impl_exes, model_exe, mod, tier)
 
     if replay:
         data = json.load(open(replay))
